@@ -1134,7 +1134,20 @@ func (e *Engine) atKind(fn *ssa.Function) int {
 	kind := -1
 	defer func() { e.atLike[fn] = kind }()
 	sig := fn.Signature
-	if sig.Recv() == nil || !sig.Variadic() || sig.Params().Len() != 1 || sig.Results().Len() != 1 || len(fn.Blocks) == 0 {
+	if sig.Results().Len() != 1 || len(fn.Blocks) == 0 {
+		return kind
+	}
+	// l.at(b ...byte), l.at(b []byte), or the same as a plain function handed the cursor: at(r *parse.Input, b ...byte)
+	switch {
+	case sig.Recv() != nil && sig.Params().Len() == 1:
+	case sig.Recv() == nil && sig.Params().Len() == 2:
+		if tp, ok := modTypePath(sig.Params().At(0).Type()); !ok || tp != "parse.Input" {
+			return kind
+		}
+	default:
+		return kind
+	}
+	if sl, isSl := sig.Params().At(sig.Params().Len()-1).Type().Underlying().(*types.Slice); !isSl || !isByteType(sl.Elem()) {
 		return kind
 	}
 	// all cursor operations are Peek(i) with i the range index; no stores; returns only constants
@@ -1733,7 +1746,20 @@ func (e *Engine) summaries(callee *ssa.Function, st *State, args []AbsVal) []sum
 			if c, ok := x.ret[0].constInt(); ok && c == 0 && isFailureResult(callee) && callee.Synthetic == "" {
 				// judged when the engine is done (finishRestore): only a scanner that restores the position on some
 				// failing path is held to restoring it on all of them
-				e.failExits[callee] = append(e.failExits[callee], failExit{st: x.st.clone(), pos: x.at.Pos(), lo: x.st.dispLo, hi: x.st.dispHi, moved: x.st.ownBack})
+				// one record per distinct outcome (return site, displacement, own restore): the verdict does not depend on
+				// how many calling contexts produced it
+				fx := failExit{pos: x.at.Pos(), lo: x.st.dispLo, hi: x.st.dispHi, moved: x.st.ownBack}
+				dup := false
+				for _, old := range e.failExits[callee] {
+					if old.pos == fx.pos && old.lo == fx.lo && old.hi == fx.hi && old.moved == fx.moved {
+						dup = true
+						break
+					}
+				}
+				if !dup {
+					fx.st = x.st.clone()
+					e.failExits[callee] = append(e.failExits[callee], fx)
+				}
 			}
 		}
 		// callee-local values are of no use to the caller
